@@ -15,7 +15,9 @@ FUNCTIONS = ['uxarray.io._mpas._replace_padding',
     'uxarray.io._mpas._parse_face_edges@dual',
     'uxarray.io._mpas._parse_edge_faces@primal',
     'uxarray.io._mpas._parse_edge_faces@dual',
-    'uxarray.grid.coordinates._set_desired_longitude_range']
+    'uxarray.grid.coordinates._set_desired_longitude_range',
+    'uxarray.io._mpas._parse_edge_nodes@primal',
+    'uxarray.io._mpas._parse_edge_nodes@dual']
 STANDINS = ["readers"]
 ASSUMPTIONS = []
 EXPLANATION = ""
